@@ -18,6 +18,7 @@ OUT_NAMES = ("", "o", "out", "1")
 ERR_NAMES = ("e", "err", "2")
 ALL_NAMES = ("a", "all", "&")
 E2O = ("err>out", "err>&1", "2>out", "err>o", "err>1", "e>out", "e>&1", "2>&1", "e>o", "2>o", "e>1", "2>1")
+REC_ARG = __import__("re").compile(r"r\d+")
 O2E = ("out>err", "out>&2", "1>err", "out>e", "out>2", "o>err", "o>&2", "1>&2", "o>e", "1>e", "o>2", "1>2")
 A2P = ("a>p", "all>p")
 E2P = ("e>p", "err>p", "2>p")
@@ -360,6 +361,16 @@ class C07(Engine):
         ctx.k.stop()
         tty_o, tty_e = ctx.read_tty()
         started = [a[1][0].rsplit("/", 1)[-1] for a in simproc.STARTED] + [f"alias{i}" for i in received]
+        # a redirect operator is consumed completely: no piece of its spelling may reach the stage as an argument
+        # (every stage is written as `<name> r<i>` plus redirects)
+        for a in simproc.STARTED:
+            if len(a[1]) != 2 or not REC_ARG.fullmatch(a[1][1]):
+                viol("argv.exact", f"{src.strip()}: stage {a[1][0].rsplit('/', 1)[-1]} was started with arguments {a[1][1:]} (written with one argument; the rest of the line are redirects)", extra=len(a[1]) > 2)
+                break
+        for i_, args_ in received.items():
+            if len(args_) != 1 or not REC_ARG.fullmatch(args_[0]):
+                viol("argv.exact", f"{src.strip()}: alias stage {i_} received arguments {args_} (written with one argument; the rest of the line are redirects)", extra=len(args_) > 1)
+                break
         if verdict == "error":
             errored = exc is not None or b"xonsh:" in tty_e or b"Error" in tty_e
             if not errored:
@@ -451,7 +462,7 @@ def _is_stdin_target(stages, fn):
 
 def _alias(i, st, received):
     def fn(args, stdin=None, stdout=None, stderr=None):
-        received[i] = True
+        received[i] = list(args)
         for k in range(max(st["no"], st["ne"])):
             if k < st["no"]:
                 stdout.write(f"s{i}:o:{k}\n")
